@@ -458,6 +458,99 @@ func PrimUnfolders() gotype.UnfoldOption {
 	)
 }
 
+// Colls has a slice field and a map field of every primitive element kind
+// (struct fields are unfolded through another lookup than top-level targets).
+type Colls struct {
+	LBool []bool
+	MBool map[string]bool
+	LStr  []string
+	MStr  map[string]string
+	LInt  []int
+	MInt  map[string]int
+	LI8   []int8
+	MI8   map[string]int8
+	LI16  []int16
+	MI16  map[string]int16
+	LI32  []int32
+	MI32  map[string]int32
+	LI64  []int64
+	MI64  map[string]int64
+	LUint []uint
+	MUint map[string]uint
+	LU8   []uint8
+	MU8   map[string]uint8
+	LU16  []uint16
+	MU16  map[string]uint16
+	LU32  []uint32
+	MU32  map[string]uint32
+	LU64  []uint64
+	MU64  map[string]uint64
+	LF32  []float32
+	MF32  map[string]float32
+	LF64  []float64
+	MF64  map[string]float64
+	LIfc  []interface{}
+	MIfc  map[string]interface{}
+}
+
+// Nest2 has slices of slices and maps of slices (the inner container is
+// unfolded by reflection) of several element kinds.
+type Nest2 struct {
+	ABool [][]bool
+	AStr  [][]string
+	AInt  [][]int
+	AI8   [][]int8
+	AI16  [][]int16
+	AI32  [][]int32
+	AI64  [][]int64
+	AUint [][]uint
+	AU8   [][]uint8
+	AU16  [][]uint16
+	AU32  [][]uint32
+	AU64  [][]uint64
+	AF32  [][]float32
+	AF64  [][]float64
+	MS    map[string][]uint16
+	SM    []map[string]int8
+	MM    map[string]map[string]float32
+}
+
+// N<Kind> are NAMED primitive types (folded by kind through reflection).
+type NBool bool
+type NStr string
+type NInt int
+type NI8 int8
+type NI16 int16
+type NI32 int32
+type NI64 int64
+type NUint uint
+type NU8 uint8
+type NU16 uint16
+type NU32 uint32
+type NU64 uint64
+type NF32 float32
+type NF64 float64
+
+type NamedPrims struct {
+	Bool NBool
+	Str  NStr
+	Int  NInt
+	I8   NI8
+	I16  NI16
+	I32  NI32
+	I64  NI64
+	Uint NUint
+	U8   NU8
+	U16  NU16
+	U32  NU32
+	U64  NU64
+	F32  NF32
+	F64  NF64
+	L    []NI16
+	M    map[string]NU32
+	P    *NF32
+}
+
 // Empty has size zero: slices of it have elements without extent.
 type Empty struct{}
 
@@ -1498,9 +1591,10 @@ var Catalogue = []TypeEntry{
 		p := Prims{Bool: PBool{V: c.Bool()}, Int: PInt{V: int(i)}, Int8: PInt8{V: int8(i)}, Int16: PInt16{V: int16(i)}, Int32: PInt32{V: int32(i)}, Int64: PInt64{V: i},
 			Uint: PUint{V: uint(genU64(c))}, Uint8: PUint8{V: uint8(i)}, Uint16: PUint16{V: uint16(i)}, Uint32: PUint32{V: uint32(i)}, Uint64: PUint64{V: genU64(c)},
 			Float32: PFloat32{V: float32(c.N(1000)) / 8}, Float64: PFloat64{V: genF(c)}}
-		if c.Bool() {
-			p.PI = &PInt16{V: int16(c.N(65536))}
-		}
+		// (never nil: the library calls the value-receiver Fold through the
+		// pointer, which panics for nil - a fold-side question outside the
+		// claimed properties, kept out of the catalogue)
+		p.PI = &PInt16{V: int16(c.N(65536))}
 		p.LU = genSlice(c, func(c *simkit.Choices) PUint8 { return PUint8{V: uint8(c.N(256))} })
 		p.MF = genMap(c, func(c *simkit.Choices) PFloat32 { return PFloat32{V: float32(c.N(100)) / 4} })
 		return p
@@ -1508,6 +1602,101 @@ var Catalogue = []TypeEntry{
 	mk("PInt16", false, func(c *simkit.Choices) PInt16 { return PInt16{V: int16(c.N(65536))} }),
 	mk("[]PUint32", false, func(c *simkit.Choices) []PUint32 {
 		return genSlice(c, func(c *simkit.Choices) PUint32 { return PUint32{V: uint32(genI(c))} })
+	}),
+	mk("Colls", true, func(c *simkit.Choices) Colls {
+		var v Colls
+		switch c.N(5) {
+		case 0:
+			v.LBool = genSlice(c, func(c *simkit.Choices) bool { return c.Bool() })
+			v.MBool = genMap(c, func(c *simkit.Choices) bool { return c.Bool() })
+			v.LStr = genSlice(c, func(c *simkit.Choices) string { return genStr(c) })
+			v.MStr = genMap(c, func(c *simkit.Choices) string { return genStr(c) })
+			v.LInt = genSlice(c, func(c *simkit.Choices) int { return int(genI(c)) })
+			v.MInt = genMap(c, func(c *simkit.Choices) int { return int(genI(c)) })
+		case 1:
+			v.LI8 = genSlice(c, func(c *simkit.Choices) int8 { return int8(c.N(256)) })
+			v.MI8 = genMap(c, func(c *simkit.Choices) int8 { return int8(c.N(256)) })
+			v.LI16 = genSlice(c, func(c *simkit.Choices) int16 { return int16(c.N(65536)) })
+			v.MI16 = genMap(c, func(c *simkit.Choices) int16 { return int16(c.N(65536)) })
+			v.LI32 = genSlice(c, func(c *simkit.Choices) int32 { return int32(genI(c)) })
+			v.MI32 = genMap(c, func(c *simkit.Choices) int32 { return int32(genI(c)) })
+		case 2:
+			v.LI64 = genSlice(c, func(c *simkit.Choices) int64 { return genI(c) })
+			v.MI64 = genMap(c, func(c *simkit.Choices) int64 { return genI(c) })
+			v.LUint = genSlice(c, func(c *simkit.Choices) uint { return uint(genU64(c)) })
+			v.MUint = genMap(c, func(c *simkit.Choices) uint { return uint(genU64(c)) })
+			v.LU8 = genSlice(c, func(c *simkit.Choices) uint8 { return uint8(c.N(256)) })
+			v.MU8 = genMap(c, func(c *simkit.Choices) uint8 { return uint8(c.N(256)) })
+		case 3:
+			v.LU16 = genSlice(c, func(c *simkit.Choices) uint16 { return uint16(c.N(65536)) })
+			v.MU16 = genMap(c, func(c *simkit.Choices) uint16 { return uint16(c.N(65536)) })
+			v.LU32 = genSlice(c, func(c *simkit.Choices) uint32 { return uint32(genI(c)) })
+			v.MU32 = genMap(c, func(c *simkit.Choices) uint32 { return uint32(genI(c)) })
+			v.LU64 = genSlice(c, func(c *simkit.Choices) uint64 { return genU64(c) })
+			v.MU64 = genMap(c, func(c *simkit.Choices) uint64 { return genU64(c) })
+		case 4:
+			v.LF32 = genSlice(c, func(c *simkit.Choices) float32 { return float32(c.N(1000)) / 8 })
+			v.MF32 = genMap(c, func(c *simkit.Choices) float32 { return float32(c.N(1000)) / 8 })
+			v.LF64 = genSlice(c, func(c *simkit.Choices) float64 { return genF(c) })
+			v.MF64 = genMap(c, func(c *simkit.Choices) float64 { return genF(c) })
+		}
+		return v
+	}),
+	mk("Nest2", true, func(c *simkit.Choices) Nest2 {
+		var v Nest2
+		switch c.N(5) {
+		case 0:
+			v.ABool = genSlice(c, func(c *simkit.Choices) []bool { return genSlice(c, func(c *simkit.Choices) bool { return c.Bool() }) })
+			v.AStr = genSlice(c, func(c *simkit.Choices) []string {
+				return genSlice(c, func(c *simkit.Choices) string { return genStr(c) })
+			})
+			v.AInt = genSlice(c, func(c *simkit.Choices) []int { return genSlice(c, func(c *simkit.Choices) int { return int(genI(c)) }) })
+		case 1:
+			v.AI8 = genSlice(c, func(c *simkit.Choices) []int8 {
+				return genSlice(c, func(c *simkit.Choices) int8 { return int8(c.N(256)) })
+			})
+			v.AI16 = genSlice(c, func(c *simkit.Choices) []int16 {
+				return genSlice(c, func(c *simkit.Choices) int16 { return int16(c.N(65536)) })
+			})
+			v.AI32 = genSlice(c, func(c *simkit.Choices) []int32 {
+				return genSlice(c, func(c *simkit.Choices) int32 { return int32(genI(c)) })
+			})
+		case 2:
+			v.AI64 = genSlice(c, func(c *simkit.Choices) []int64 { return genSlice(c, func(c *simkit.Choices) int64 { return genI(c) }) })
+			v.AUint = genSlice(c, func(c *simkit.Choices) []uint {
+				return genSlice(c, func(c *simkit.Choices) uint { return uint(genU64(c)) })
+			})
+			v.AU8 = genSlice(c, func(c *simkit.Choices) []uint8 {
+				return genSlice(c, func(c *simkit.Choices) uint8 { return uint8(c.N(256)) })
+			})
+		case 3:
+			v.AU16 = genSlice(c, func(c *simkit.Choices) []uint16 {
+				return genSlice(c, func(c *simkit.Choices) uint16 { return uint16(c.N(65536)) })
+			})
+			v.AU32 = genSlice(c, func(c *simkit.Choices) []uint32 {
+				return genSlice(c, func(c *simkit.Choices) uint32 { return uint32(genI(c)) })
+			})
+			v.AU64 = genSlice(c, func(c *simkit.Choices) []uint64 {
+				return genSlice(c, func(c *simkit.Choices) uint64 { return genU64(c) })
+			})
+		case 4:
+			v.AF32 = genSlice(c, func(c *simkit.Choices) []float32 {
+				return genSlice(c, func(c *simkit.Choices) float32 { return float32(c.N(1000)) / 8 })
+			})
+			v.AF64 = genSlice(c, func(c *simkit.Choices) []float64 {
+				return genSlice(c, func(c *simkit.Choices) float64 { return genF(c) })
+			})
+		}
+		if c.N(3) == 0 {
+			v.MS = genMap(c, func(c *simkit.Choices) []uint16 { return []uint16{uint16(c.N(65536))} })
+			v.SM = []map[string]int8{{GenKey(c, 4): int8(c.N(256))}}
+			v.MM = map[string]map[string]float32{GenKey(c, 4): {GenKey(c, 4): 1.5}}
+		}
+		return v
+	}),
+	mk("NamedPrims", true, func(c *simkit.Choices) NamedPrims {
+		f := NF32(float32(c.N(100)) / 4)
+		return NamedPrims{Bool: NBool(c.Bool()), Str: NStr(genStr(c)), Int: NInt(int(genI(c))), I8: NI8(int8(c.N(256))), I16: NI16(int16(c.N(65536))), I32: NI32(int32(genI(c))), I64: NI64(genI(c)), Uint: NUint(uint(genU64(c))), U8: NU8(uint8(c.N(256))), U16: NU16(uint16(c.N(65536))), U32: NU32(uint32(genI(c))), U64: NU64(genU64(c)), F32: NF32(float32(c.N(1000)) / 8), F64: NF64(genF(c)), L: []NI16{NI16(c.N(65536))}, M: map[string]NU32{GenKey(c, 4): NU32(c.N(100000))}, P: &f}
 	}),
 	mk("Label", true, func(c *simkit.Choices) Label { return Label{S: genStr(c)} }),
 	mk("Labeled", true, func(c *simkit.Choices) Labeled {
@@ -1553,6 +1742,7 @@ var families = map[string][]string{
 	"score":  {"Score", "[]Score", "map[string]Score", "Scored", "int"},
 	"packed": {"PackedU8", "PackedI8", "PackedBool", "PackedU16", "PackedI16", "PackedU32", "PackedI32", "PackedF32", "PackedMix"},
 	"simple": {"Simple", "[]Simple", "map[string]Simple", "*Simple", "Nested", "map[MyStr]Simple", "Wide", "Embeds"},
+	"colls":  {"Colls", "Nest2", "NamedPrims", "[]int16", "map[string]uint16", "[][]string"},
 	"ints": {"[]int8", "[]int16", "[]int32", "[]int64", "[]uint8", "[]uint16", "[]uint32", "[]uint64", "[]uint", "[]int", "SmallPtrs", "[3]int", "ArrHolder",
 		"map[string]int8", "map[string]int16", "map[string]int32", "map[string]int64", "map[string]uint", "map[string]uint8", "map[string]uint16", "map[string]uint32", "map[string]uint64", "map[string]float32", "map[string]float64", "[]float32", "[]float64"},
 	"kv":     {"OrderedKV", "WithKV", "map[string]string", "Strs"},
@@ -1568,7 +1758,7 @@ var families = map[string][]string{
 	"ifc":    {"interface{}", "[]interface{}", "map[string]interface{}", "[]map[string]interface{}", "Strs", "Tagged"},
 }
 
-var familyNames = []string{"wrap", "inline", "ints", "shape", "empty", "omit", "arrays", "bad", "label", "packed", "inner", "named", "score", "simple", "kv", "folder", "local", "ifc"}
+var familyNames = []string{"colls", "wrap", "inline", "ints", "shape", "empty", "omit", "arrays", "bad", "label", "packed", "inner", "named", "score", "simple", "kv", "folder", "local", "ifc"}
 
 // PickRelated draws n types; half of the time all from one family (types
 // that contain each other), else independently.
@@ -1606,6 +1796,16 @@ func (t *TypeEntry) ExactRoundTrip() bool {
 
 func init() {
 	Catalogue = append(Catalogue, localRecordA(), localRecordB())
+	for _, n := range familyNames {
+		if len(families[n]) == 0 {
+			panic("model: family without members: " + n)
+		}
+		for _, t := range families[n] {
+			if TypeByName(t) == nil {
+				panic("model: family " + n + " names an unknown type: " + t)
+			}
+		}
+	}
 }
 
 func unsupported(t TypeEntry) TypeEntry { t.Supported = false; return t }
